@@ -6,8 +6,9 @@
    a pending writer blocks NEW readers.  [step i c] lets thread i perform its next action if the lock rules allow
    it; a schedule is any sequence of thread indexes.  The access table below transcribes Storage.Put, Storage.Get,
    Storage.Delete / retention, the write-back and eviction tasks and the cache savers as they are in /repo after
-   the fix commits ffa16da (D9), 39795c3 (cache miss path), 560e1ec (Intersection), with the pre-fix variants kept
-   next to them for the refutation examples.
+   the fix commits ffa16da (D9), 39795c3 (cache miss path), 560e1ec (Intersection), 6f0bdb0 (Dimension.Serialize),
+   fba57a2 (timeline and cover in one read section), with the pre-fix variants kept next to them for the
+   refutation examples.
 
    COARSE model.  Ingests into one series and renders of it as start / atomic step / end events; any interleaving
    that respects each client's program order.  The atomic step of a render is its segment read section (the tree
@@ -235,9 +236,10 @@ Definition get_thread (s : nat) (ds : list nat) (ts : list nat) : thread :=
   flat_map (fun d => locked (LDim d) MR [Acc (LocDimKeys d) false]) ds ++  (* Intersection: copyKeys, one at a time *)
   cache_get_miss CSegs [] ++
   locked (LSeg s) MR [Acc (LocSegMeta s) false] ++                          (* AggregationType *)
-  locked (LSeg s) MR [Acc (LocSegTree s) false] ++                          (* PopulateTimeline *)
-  locked (LSeg s) MR (Acc (LocSegTree s) false ::                           (* Segment.Get + callbacks *)
+  locked (LSeg s) MR (Acc (LocSegTree s) false ::                           (* GetWithTimeline (fba57a2): timeline, *)
+                      Acc (LocSegTree s) false ::                           (*   cover and the tree reads of the    *)
                       flat_map (fun t => cache_get_hit CTrees ++ locked (LTree t) MR [Acc (LocTree t) false]) ts) ++
+                                                                            (*   callbacks in ONE read section      *)
   locked (LSeg s) MR [Acc (LocSegMeta s) false].                            (* SpyName / SampleRate / Units *)
 
 (* pre-fix variants (for the refutation examples) *)
@@ -266,12 +268,12 @@ Definition get_thread_nested (s : nat) (ds : list nat) (ts : list nat) : thread 
 
 (* the savers: Cache.saveToDisk called by the write-back goroutine, the eviction goroutine or Flush *)
 Definition save_dimension (d : nat) : thread := locked (LDim d) MR [Acc (LocDimKeys d) false].
-Definition save_dimension_unlocked (d : nat) : thread := [Acc (LocDimKeys d) false].   (* as of 560e1ec: no lock *)
+Definition save_dimension_unlocked (d : nat) : thread := [Acc (LocDimKeys d) false].   (* before 6f0bdb0: no lock *)
 Definition save_segment (s : nat) : thread := locked (LSeg s) MR [Acc (LocSegTree s) false; Acc (LocSegMeta s) false].
 Definition save_dict (a : nat) : thread := locked (LDict a) MR [Acc (LocDict a) false].
 Definition save_tree (t a : nat) : thread :=     (* treeBytes: dicts.Get, then Serialize: d.Put per node under the tree's read lock *)
   cache_get_miss CDicts [] ++
-  locked (LTree t) MR [Acc (LocTree t) false; Acq (LDict a) MW; Acc (LocDict a) true; Rel (LDict a) MW].
+  locked (LTree t) MR (Acc (LocTree t) false :: locked (LDict a) MW [Acc (LocDict a) true]).
 
 (* write-back task: lfu.WriteBack holds the lfu lock while it offers entries (non-blocking sends) *)
 Definition writeback_task (c : cacheid) : thread := lfu_op c.
